@@ -949,7 +949,8 @@ impl<'a> CompilerState<'a> {
         let p = pairs.next().unwrap();
         match p.as_rule() {
             Rule::primary_var_type => {
-                let s = p.as_str();
+                // The matched text may end with white space
+                let s = p.as_str().trim();
                 if s.contains("*") {
                     Ok(2)
                 } else if s == "char" {
